@@ -395,4 +395,66 @@ ITEMS = [
                   ('C20:no_option_makes_an_empty_mapping_indistinguishable_from_null', "r is Ok ==> ends_with3(final(ser).out.text(), '{', '}', '\\n')", ['C20'])],
          loops={1: dict(invariant=[('frame', '__i1 <= __n1 && ser.empty_as_braces == old(ser).empty_as_braces')], decreases='__n1 - __i1')},
          canaries=['C20:an_empty_mapping_is_written_as_braces_when_the_option_asks_for_it']),
+    # ---- scalar mapping keys (C12, position "mapping key"): KeyScalarSink::serialize_str has its own quoting ----
+    dict(src=SR, path='struct KeyScalarSink'),
+    dict(src=SR, path='impl Serializer for &mut KeyScalarSink/fn serialize_str', id='KeyScalarSink::serialize_str', props=['C12', 'C01'],
+         impl_header="impl<'a> KeyScalarSink<'a>", loop_rewrites=CHARS,
+         pre_rewrites=[(r'fn serialize_str\(self, v: &str\) -> Result<\(\)>', 'fn serialize_str(&mut self, v: &str) -> Result<(), SerError>', 1, 'R9'),
+                       (r'use std::fmt::Write as _;', '', None, 'R9')],
+         rewrites=[(r'self\.s\.push_str\(([^;]*)\);', r'string_push_str(self.s, \1);', None, 'R8'),
+                   (r"self\.s\.push\(([^;]*)\);", r'string_push(self.s, \1);', None, 'R8'),
+                   (r'let _ = write!\(self\.s, "\\\\u\{:04X\}", c as u32\);', 'string_write_u4(self.s, c as u32);', 1, 'R12')],
+         proofs=[dict(at='start', ghost=True, text='let ghost t0 = self.s@;'),
+                 dict(after='__i1 += 1;', text="""
+                     assert(v@.take(__i1 as int).drop_last() =~= v@.take(__i1 as int - 1));
+                     assert(v@.take(__i1 as int).last() == ch);
+                     reveal_strlit("\\\\\\\\"); reveal_strlit("\\\\\\""); reveal_strlit("\\\\n"); reveal_strlit("\\\\r"); reveal_strlit("\\\\t");"""),
+                 dict(after_loop=1, text='assert(v@.take(__i1 as int) =~= v@);')],
+         ensures=[('C12:a_key_is_written_raw_only_if_it_reads_back_as_itself_in_block_and_flow_mappings_else_double_quoted',
+                   """r is Ok ==> ({ let t1 = final(self).s@; let b = v.spec_bytes();
+                        ||| (t1 =~= t0_of(old(self)) + v@ && !sp_ambiguous(b) && plain_reads_back(b, false) && plain_reads_back(b, true))
+                        ||| t1 =~= t0_of(old(self)).push('"') + kq_body(v@) + seq!['"'] })"""),
+                  ('frame', 'final(self).yaml_12 == old(self).yaml_12')],
+         loops={1: dict(invariant=[('prefix_escaped', """__n1 == v@.len() && __i1 <= __n1 && self.s@ =~= t0.push('"') + kq_body(v@.take(__i1 as int))""")],
+                        decreases='__n1 - __i1')},
+         canaries=['C12:a_key_is_written_raw_only_if_it_reads_back_as_itself_in_block_and_flow_mappings_else_double_quoted']),
+    # ---- float text (C12: "emitted floats always match YAML's float grammar (a decimal point, signed exponent)") ----
+    # the digits come from the external crate zmij (shortest round-trip formatting; assumed ASCII); what this crate adds
+    # is the normalisation of that text, lifted from both copies (fmt::Write sink and String)
+    dict(src='src/zmij_format.rs', path='fn write_float_string', id='write_float_string#normalise', props=['C12', 'C01'],
+         fragment=r"if let Some\(exp_pos\) = s\.find\('e'\).*?\} else \{\s*target\.write_str\(s\)\?;\s*\}", fragment_flags='S',
+         wrapper='fn write_float_text_fragment(target: &mut Sink, s: &str) -> Result<(), SerError> { {FRAG} Ok(()) }',
+         pre_rewrites=[(r"s\.find\('e'\)\.or_else\(\|\| s\.find\('E'\)\)", "(match ascii_find(s, 'e') { Some(__p) => Some(__p), None => ascii_find(s, 'E') })", 1, 'R18'),
+                       (r'!matches!\(s\.as_bytes\(\)\.get\(exp_pos \+ 1\), Some\(b\'\+\' \| b\'-\'\)\)', '!ascii_sign_at(s, exp_pos + 1)', 1, 'R8')],
+         rewrites=[(r"s\[\.\.exp_pos\]\.contains\('\.'\)", "ascii_contains(ascii_slice(s, 0, exp_pos), '.')", None, 'R8'),
+                   (r'&s\[\.\.exp_pos\]', 'ascii_slice(s, 0, exp_pos)', None, 'R8'),
+                   (r'&s\[exp_pos\.\.=exp_pos\]', 'ascii_slice(s, exp_pos, exp_pos + 1)', None, 'R8'),
+                   (r'&s\[exp_pos \+ 1\.\.\]', 'ascii_slice(s, exp_pos + 1, ascii_len(s))', None, 'R8'),
+                   
+                   (r"!s\.contains\('\.'\)", "!ascii_contains(s, '.')", None, 'R8')],
+         requires=[('assumed:zmij_text_is_ascii', 'all_ascii(s@)'), ('a_str_is_shorter_than_the_address_space', 's@.len() < usize::MAX')],
+         proofs=[dict(at='start', text='reveal_strlit(".0"); lemma_float_norm_grammar(s@); lemma_first_index(s@, \'e\'); lemma_first_index(s@, \'E\');')],
+         ensures=[('C12:float_text_is_the_formatted_digits_with_only_point_zero_and_an_exponent_sign_inserted',
+                   'r is Ok ==> final(target).text() =~= old(target).text() + float_norm(s@)'),
+                  ('C12:float_text_has_a_decimal_point_in_the_mantissa_and_a_signed_exponent',
+                   'mantissa_has_point(float_norm(s@)) && exponent_is_signed(float_norm(s@))')],
+         canaries=['C12:float_text_is_the_formatted_digits_with_only_point_zero_and_an_exponent_sign_inserted']),
+    dict(src='src/zmij_format.rs', path='fn push_float_string', id='push_float_string#normalise', props=['C12', 'C01'],
+         fragment=r"if let Some\(exp_pos\) = s\.find\('e'\).*?\} else \{\s*target\.push_str\(s\);\s*\}", fragment_flags='S',
+         wrapper='fn push_float_text_fragment(target: &mut String, s: &str) { {FRAG} }',
+         pre_rewrites=[(r"s\.find\('e'\)\.or_else\(\|\| s\.find\('E'\)\)", "(match ascii_find(s, 'e') { Some(__p) => Some(__p), None => ascii_find(s, 'E') })", 1, 'R18'),
+                       (r'!matches!\(s\.as_bytes\(\)\.get\(exp_pos \+ 1\), Some\(b\'\+\' \| b\'-\'\)\)', '!ascii_sign_at(s, exp_pos + 1)', 1, 'R8')],
+         rewrites=[(r"s\[\.\.exp_pos\]\.contains\('\.'\)", "ascii_contains(ascii_slice(s, 0, exp_pos), '.')", None, 'R8'),
+                   (r'&s\[\.\.exp_pos\]', 'ascii_slice(s, 0, exp_pos)', None, 'R8'),
+                   (r'&s\[exp_pos\.\.=exp_pos\]', 'ascii_slice(s, exp_pos, exp_pos + 1)', None, 'R8'),
+                   (r'&s\[exp_pos \+ 1\.\.\]', 'ascii_slice(s, exp_pos + 1, ascii_len(s))', None, 'R8'),
+                   
+                   (r"!s\.contains\('\.'\)", "!ascii_contains(s, '.')", None, 'R8'),
+                   (r'target\.push_str\(([^;]*)\);', r'string_push_str(target, \1);', None, 'R8'),
+                   (r"target\.push\(([^;]*)\);", r'string_push(target, \1);', None, 'R8')],
+         requires=[('assumed:zmij_text_is_ascii', 'all_ascii(s@)'), ('a_str_is_shorter_than_the_address_space', 's@.len() < usize::MAX')],
+         proofs=[dict(at='start', text='reveal_strlit(".0"); lemma_first_index(s@, \'e\'); lemma_first_index(s@, \'E\');')],
+         ensures=[('C12:float_text_is_the_formatted_digits_with_only_point_zero_and_an_exponent_sign_inserted',
+                   'final(target)@ =~= old(target)@ + float_norm(s@)')],
+         canaries=['C12:float_text_is_the_formatted_digits_with_only_point_zero_and_an_exponent_sign_inserted']),
 ]
